@@ -1071,7 +1071,7 @@ package decimal128
 //@ split i in 0..63
 //@ assert before "r0, _ := bits.Div64(v[1], v[0], u[1])": u128(u) == u128(o) * pow2(i) && 2 * u128(v) <= u128(n) && u128(n) <= 2 * u128(v) + 1 && u[1] >= 9223372036854775808 && v[1] < 9223372036854775808
 //@ assert before "r := uint128{r0, 0}": r0 * u128(o) <= u128(n) && u128(n) < (r0 + 2) * u128(o)
-//@ props C02 C03 C10 C20
+//@ props C02 C20
 
 // shifts by a symbolic count (bit-vector model; the statements are theory neutral so that
 // integer-model callers can use them): left shift is multiplication by 2^o modulo 2^128,
